@@ -204,4 +204,5 @@ def grouping_shape(grp):
                 return True, 'groupby over input sorted by the same key'
             return False, 'itertools.groupby only merges adjacent ids: with an id list in which a category\'s ids are not adjacent, a later run ' \
                           'replaces the earlier one and those recordings are never played (the input is not sorted by the grouping key first)'
-    return False, 'no recognised grouping of the explicit ids by the cassette\'s extract_recording_category'
+    raise AnalysisError('grouping of explicit ids has a shape the rule does not model (expected a loop appending each id to the group of '
+                        'extract_recording_category(id), or groupby over input sorted by that key)')
